@@ -1,5 +1,5 @@
 (* C11 model runner.  One case per line:
-   <id> <cfg5bits> <wd> <cwd> <nprep> {d <path> | f <path> <tag>}* <npush>
+   <id> <cfg6bits> <wd> <cwd> <nprep> {d <path> | f <path> <tag>}* <npush>
         { B <title> <tag> | U <title> <nent> { r <name> <tag> | d <name> | h <name> <tgt> | s <name> <tgt> | o <name> }* }*
    strings are hex ("-" = empty); paths are absolute slash-separated strings.
    Output: <id> <verdicts>|<hexpath>:<d|fTAG|lHEXTARGET>,... sorted by hexpath *)
@@ -17,7 +17,7 @@ let run_case id toks =
   let next () = match !toks with x :: r -> toks := r; x | [] -> failwith "short line" in
   let bits = next () in
   let bit i = bits.[i] = '1' in
-  let g = { fixH = bit 0; fixC = bit 1; fixD = bit 2; fixA = bit 3; fixS = bit 4 } in
+  let g = { fixH = bit 0; fixC = bit 1; fixD = bit 2; fixA = bit 3; fixS = bit 4; fixR = bit 5 } in
   let wd = path_of_string (string_of_hex (next ())) in
   let cwd = path_of_string (string_of_hex (next ())) in
   let nprep = int_of_string (next ()) in
